@@ -27,6 +27,10 @@ CLAIMED = {
          "MC_Restore: state saved by each class under each of 6 parameter sets (base; M, N, S changed one at a time; same subgroup with another generator; another group) offered to from_serialized of each class under each set: RestoreSound holds except for the generator-only pairs (finding F6), which TLC is required to find. The same matrix runs on the real code (toy integer group, toy curve, 4 shipped sets plus same-group seed variants) with trace validation; silent restores with a different outbound message are reported unless they are exactly F6.",
          "TLC 1.8; BigNat overrides; F6 is a listed known finding",
          "TLA+ model checked by TLC + trace validation", "6/C09"),
+ "C13": ("model_checking",
+         "MC_Axioms: TLC checks commutativity, associativity, identity, inverse, closure, encoding injectivity, n-fold addition, dependence on n mod q and the three distributive laws of the specification's value-level group operations exhaustively over all triples of subgroup elements and all (a, b, m in [-q,2q], n) on toy integer groups and toy Edwards curves. The real element API is then driven over complete operation tables (add, scalarmult for every n in [-q,2q], ==, !=, negate, subtract; operands obtained through 7 different API paths incl. results of operations, Zero on either side, decoded elements; type of every result and whether the result accepts a negative scalar) on toy groups running the library's own code, and over edge/random operands on the four shipped groups; every table row is validated by TLC against the specification.",
+         "TLC 1.8; BigNat overrides; full-size operands are edge cases + seeded random, not all",
+         "TLA+ model checked by TLC + table validation of the real element API", "6/C13"),
 }
 checks = []
 for p in props:
